@@ -4,7 +4,7 @@
 # Prints one line per seed: CAUGHT / MISSED / NOAPPLY. Run it after changing checks or generators.
 export GOFLAGS=-mod=mod GOPROXY=off GOSUMDB=off GOTOOLCHAIN=local
 W=${1:-/tmp/wt-me}; PAT=${2:-.}
-declare -A ALT=( [C01-m3]="C01 C05" [C07-m4]="C07 C01" [C13-m3]="C12" [C15-m1]="C16" [C15-m4]="C17" [C03-n2]="C10" [C10-m4]="C10" [C11-m1]="C11 C10" [C13-p3]="C12" [C15-p3]="C16" [C19-p3]="C18" [C15-n1]="C16" [C15-n2]="C16" [C12-q2]="C10" [C15-q1]="C17" [C17-q2]="C15" [C01-r2]="C04" [C19-r3]="C18" [C03-q2]="C14" [C01-s1]="C08" [C03-s2]="C10" [C15-s3]="C16" [C06-s3]="C04" )
+declare -A ALT=( [C01-m3]="C01 C05" [C07-m4]="C07 C01" [C13-m3]="C12" [C15-m1]="C16" [C15-m4]="C17" [C03-n2]="C10" [C10-m4]="C10" [C11-m1]="C11 C10" [C13-p3]="C12" [C15-p3]="C16" [C19-p3]="C18" [C15-n1]="C16" [C15-n2]="C16" [C12-q2]="C10" [C15-q1]="C17" [C17-q2]="C15" [C01-r2]="C04" [C19-r3]="C18" [C03-q2]="C14" [C01-s1]="C08" [C03-s2]="C10" [C15-s3]="C16" [C06-s3]="C04" [C13-w1]="C12" )
 cd $W && git checkout -q -- . && git clean -fdq && git checkout -q --detach main
 for d in $(ls -d /verif/seeded/C*/ | grep -E "$PAT"); do
   id=$(basename $d); prop=${id%%-*}
